@@ -238,8 +238,10 @@ def regenerate_case(fam, case_id, seed, tier, replay=None):
     return None
 
 
-def run_family(fam, n, seed, tier, replay=None, extra=None, race=False, timeout=3600):
+def run_family(fam, n, seed, tier, replay=None, extra=None, race=False, timeout=None):
     """harness -> driver; returns list of dict(case, go, m). Corpus cases run first."""
+    if timeout is None:
+        timeout = 3600 if tier == "quick" else 14400   # a loaded machine must not turn a thorough run into a "violation"
     exe, err = build_harness(race=race)
     if exe is None:
         raise RuntimeError("harness build failed (tie T2 cannot be evaluated):\n" + err)
@@ -283,8 +285,10 @@ def run_family(fam, n, seed, tier, replay=None, extra=None, race=False, timeout=
     return rows
 
 
-def run_family_sharded(fam, n, seed, tier, shards=16, replay=None, extra=None, timeout=3600):
+def run_family_sharded(fam, n, seed, tier, shards=16, replay=None, extra=None, timeout=None):
     """like run_family, with the generated cases spread over `shards` harness processes"""
+    if timeout is None:
+        timeout = 3600 if tier == "quick" else 14400
     if replay or shards <= 1:
         return run_family(fam, n, seed, tier, replay=replay, extra=extra, timeout=timeout)
     exe, err = build_harness()
